@@ -72,6 +72,10 @@ def access_index(ctx):
                     if ty.startswith("{closure@"):
                         continue    # a closure passed by value: its captures are accounted for in its own body
                     srcs = fl.op_sources(a)
+                    if ty.startswith("&mut ") and _borrows_owned_local(fl, a):
+                        # `&mut local` where the local is a value of its own (built from copies of self's fields or not): the callee
+                        # can change the local, not the visitor
+                        continue
                     for f in self_field_of(srcs):
                         ff = first_field(f)
                         if ff:
@@ -84,6 +88,37 @@ def access_index(ctx):
                         idx.setdefault(ff, []).append({"body": b, "bb": blk["i"], "kind": "switch", "node": t, "path": f, "mut": False})
     ctx.cache["state_index"] = idx
     return idx
+
+
+def _borrows_owned_local(fl, op):
+    """the reference operand points into a local of this body that is a value of its own (not reached through a parameter / upvar)"""
+    p = place_of(op)
+    return p is not None and not p.get("p") and not p.get("upvar") and _ref_root_is_owned(fl, p["l"], set())
+
+
+def _ref_root_is_owned(fl, local, seen):
+    if local in seen or 1 <= local <= fl.nargs:
+        return False
+    seen.add(local)
+    defs = fl.defs.get(local, [])
+    if len(defs) != 1 or defs[0][0] != "stmt" or defs[0][2]["lhs"].get("p"):
+        return False
+    rv = defs[0][2]["rv"]
+    if rv.get("rk") == "use":
+        q = place_of(rv.get("op"))
+        return q is not None and not q.get("p") and not q.get("upvar") and _ref_root_is_owned(fl, q["l"], seen)
+    if rv.get("rk") == "ref":
+        q = rv["place"]
+        if q.get("upvar"):
+            return False
+        projs = q.get("p") or []
+        if projs and projs[0] == "*":
+            # re-borrow through a reference held in another local
+            return "*" not in projs[1:] and _ref_root_is_owned(fl, q["l"], seen)
+        if "*" in projs:
+            return False
+        return not (1 <= q["l"] <= fl.nargs)
+    return False
 
 
 def _only_feeds_closure(b, local):
